@@ -61,7 +61,7 @@ CHECKS['C01'] = dict(
     technique='solver-enumerated labelled DAGs x reference kinds (z3 rank constraints), each executed on the real Program.run with an execution-counting harness library; post-run access histories forked symbolically',
     text='Bounded model checking of the real scheduler: z3 chooses, for every ordered pair of N commands, whether and how (direct, list, nested list) one references the other under an acyclicity constraint; '
          'the explorer follows exactly the satisfiable assignments, builds each program through add_command / from_source and runs the real Program.run, then a solver-chosen history of further run()/result accesses. '
-         'Every command must execute exactly once, receive the finished results of its dependencies (structural result compared with a reference graph evaluation) and nothing may execute afterwards; the memo step is also checked from an arbitrary is_finished state.',
+         'Every command must execute exactly once, receive the finished results of its dependencies (structural result compared with a reference graph evaluation) and nothing may execute afterwards; the memo step is also checked from an arbitrary is_finished state. Further histories: a solver-chosen command fails inside execute() in the first run() and the Program is run again after the cause is removed; a command is replaced; command objects of an earlier Program (with or without a namesake) are passed directly as arguments.',
     note='Trusted: z3 (structure enumeration), the harness library mpv/nodes/mpvnodes.py; values are concrete structural tuples, so every path is itself a real execution.',
     ref='DESIGN.md §3 C01')
 CHECKS['C14'] = dict(
@@ -124,7 +124,7 @@ CHECKS['C15'] = dict(
     ref='DESIGN.md §4 C15')
 CHECKS['C10'] = dict(
     technique='z3 regular-expression lemmas over the live PLY master regex (one lemma per lexeme class) + symbolic execution of the real LRParser and grammar actions on token streams with z3-valued tokens, against the generating abstract program and a reference recogniser',
-    text='L1: for 18 lexeme classes (identifiers, integers, decimals incl. exponent forms, quoted strings with the standard escapes, comments, line breaks, punctuation, one-token unquoted text) z3 proves on the live master regex that the lexeme followed by any delimiter is exactly one match of the expected rule (every lemma model is replayed on the real lexer), and unquoted text of the user-guide class (inner blanks, digit-leading, boolean words) must come back as written on solver-produced witnesses. '
+    text='L1: for 20 lexeme classes (identifiers, integers, decimals incl. exponent forms, quoted strings with the standard escapes, comments, line breaks, punctuation, one-token unquoted text) z3 proves on the live master regex that the lexeme followed by any delimiter is exactly one match of the expected rule (every lemma model is replayed on the real lexer, and the decoded token value is an obligation decided on up to 4 distinct solver-chosen members of each class, including non-ASCII characters next to escape sequences), and unquoted text of the user-guide class (inner blanks, digit-leading, boolean words) must come back as written on solver-produced witnesses. '
          'L3: solver-chosen abstract programs (commands, EEMS-2 commands, arguments, 10 value kinds, nested lists, tuples, trailing commas) are rendered to token streams whose values and line numbers are z3 terms; the real LRParser + actions must return a tree term-equal to the abstract program; every sampled single-token deletion/duplication/substitution must be accepted iff a reference recogniser accepts and otherwise raise SyntaxError. LC: 128 concrete layouts of one program through the real Parser.',
     note='Trusted: z3 regex/strings; A-lex (greedy = longest, checked on each lemma model); stub lexer in L3 justified by L1; reference grammar in DESIGN.md Appendix D (ambiguous bracketed colon text not asserted).',
     ref='DESIGN.md §4 C10')
